@@ -97,7 +97,7 @@ func intern(s string) string {
 	return v.(string)
 }
 
-func buildLone(run *fw.Run, k loneKey, dirs *hostDirs, depth int, count *atomic.Int64) *loneTable {
+func buildLone(abort func() bool, breathe func(), k loneKey, dirs *hostDirs, depth int, count *atomic.Int64) *loneTable {
 	t := &loneTable{byLen: make([][]loneEntry, depth+1)}
 	for n := 0; n <= depth; n++ {
 		t.byLen[n] = make([]loneEntry, pow(K, n))
@@ -108,7 +108,11 @@ func buildLone(run *fw.Run, k loneKey, dirs *hostDirs, depth int, count *atomic.
 		// chunked so that goroutine scheduling overhead stays negligible
 		const chunk = 64
 		fw.Parallel((tot+chunk-1)/chunk, runtime.NumCPU(), func(ci int) {
+			if abort() {
+				return
+			}
 			for code := ci * chunk; code < tot && code < (ci+1)*chunk; code++ {
+				breathe()
 				res, o := runLone(k, dirs, decode(code, n))
 				e := loneEntry{dig: digest(res, o)}
 				// chunk of the last step = stdout minus parent's stdout; parents (length n-1) are complete.
@@ -159,6 +163,10 @@ type explorer struct {
 	stop                                       atomic.Bool
 	nonRepro, loneRepaired                     atomic.Int64
 	verbose                                    bool
+	memStop                                    atomic.Bool // memory guard tripped: take no new work
+	peakRSS                                    atomic.Int64
+	throttle                                   atomic.Bool
+	throttles                                  atomic.Int64
 	quiesce                                    sync.RWMutex // workers hold it shared per word; mismatch handling holds it exclusively
 	collisions                                 map[string]int64
 	outcomes                                   *fw.Counter
@@ -511,9 +519,10 @@ func (e *explorer) runShard(p plan, sh shard, sampleIt bool) (st shardStats) {
 	defer func() { w.close() }()
 	var history [][]step
 	exec := func(word []step) {
-		if e.stop.Load() {
+		if e.stop.Load() || e.memStop.Load() {
 			return
 		}
+		e.breathe()
 		if len(word) == p.depth && p.depth > e.loneDepth && singleActor(word) && p.c.Policy == "lazy" {
 			return // identical to a lone run of a word longer than the reference table: nothing to compare
 		}
@@ -596,19 +605,20 @@ func (e *explorer) exploreAll(ps []plan) []int64 {
 	for pi, p := range ps {
 		shards = append(shards, p.shards(pi)...)
 	}
-	stats := make([]shardStats, len(shards))
+	perPlan := make([]int64, len(ps))
+	var mu sync.Mutex
 	fw.Parallel(len(shards), runtime.NumCPU(), func(si int) {
 		if e.run.Expired() {
 			e.run.Capped("budget")
 			return
 		}
-		if e.stop.Load() {
+		if e.stop.Load() || e.memStop.Load() {
 			return
 		}
-		stats[si] = e.runShard(ps[shards[si].plan], shards[si], si%97 == 5)
-	})
-	perPlan := make([]int64, len(ps))
-	for si, st := range stats {
+		st := e.runShard(ps[shards[si].plan], shards[si], si%97 == 5)
+		// merged at once: nothing is retained per shard
+		mu.Lock()
+		defer mu.Unlock()
 		perPlan[shards[si].plan] += st.words
 		e.words.Add(st.words)
 		e.steps.Add(st.steps)
@@ -623,7 +633,7 @@ func (e *explorer) exploreAll(ps []plan) []int64 {
 		for _, x := range st.samples {
 			e.samples.Add(x)
 		}
-	}
+	})
 	e.shards = int64(len(shards))
 	return perPlan
 }
@@ -715,16 +725,66 @@ func (e *explorer) phase0() (cases int64, ok bool) {
 	return
 }
 
+// memoryGuard bounds the resident set of the process. The workers allocate ~2 GiB/s of short-lived instance state
+// (64 KiB+ linear memories, sys contexts); on a loaded machine the concurrent collector falls behind and the heap
+// overshoots its goal by gigabytes. The guard samples VmRSS every 250 ms (it includes wazevo's mmap'ed code, which
+// runtime.MemStats does not):
+//   - above throttleBytes the workers pause at their next word boundary while the guard forces a collection and
+//     returns the freed memory to the OS, then they resume;
+//   - if the process is still above guardBytes AFTER such a collection, live data is too large: the run stops
+//     cleanly (run.Capped("memory guard") => exhaustive:false, exit 0) instead of being killed by the kernel.
+const (
+	throttleBytes = 3 << 30
+	guardBytes    = 6 << 30
+)
+
+func (e *explorer) memoryGuard() {
+	for n := 0; ; n++ {
+		time.Sleep(250 * time.Millisecond)
+		r := rssBytes()
+		if r > e.peakRSS.Load() {
+			e.peakRSS.Store(r)
+		}
+		if os.Getenv("C11_MEMTRACE") != "" && n%8 == 0 {
+			var ms runtime.MemStats
+			runtime.ReadMemStats(&ms)
+			fmt.Fprintf(os.Stderr, "mem: rss=%dMiB heapInuse=%dMiB heapSys=%dMiB heapReleased=%dMiB sys=%dMiB numGC=%d worldsClosed=%d throttles=%d\n",
+				r>>20, ms.HeapInuse>>20, ms.HeapSys>>20, ms.HeapReleased>>20, ms.Sys>>20, ms.NumGC, closedCompilerWorlds.Load(), e.throttles.Load())
+		}
+		if r > throttleBytes {
+			e.throttle.Store(true)
+			e.throttles.Add(1)
+			time.Sleep(20 * time.Millisecond) // let the workers reach a word boundary
+			runtime.GC()
+			debug.FreeOSMemory()
+			if rssBytes() > guardBytes {
+				e.memStop.Store(true)
+				e.run.Capped("memory guard")
+			}
+			e.throttle.Store(false)
+		}
+	}
+}
+
+// breathe is called by every worker between two words (and between two lone reference runs).
+func (e *explorer) breathe() {
+	for e.throttle.Load() {
+		time.Sleep(2 * time.Millisecond)
+	}
+}
+
 // ---------------------------------------------------------------- plans
 
 func plans(thorough bool) []plan {
 	var ps []plan
+	// Both tiers have depth 4 for the primary configuration. quick: every other configuration at depth 3.
+	// thorough: the nine most important other configurations at depth 4 as well (deep4 below), the rest at depth 3.
+	// C11_DEPTH=n (not a tier): primary at depth n, the others at n-1; n=5 is the 9*10^7-word exploration that
+	// needs ~16 000 cpu-s (about 17 min on 16 idle cores) and does not fit the thorough budget on a shared machine.
 	d := 4
-	if thorough {
-		d = 5
-	}
+	override := false
 	if v, err := strconv.Atoi(os.Getenv("C11_DEPTH")); err == nil && v >= 2 {
-		d = v // development knob only; the tiers use 4 and 5
+		d, override = v, true
 	}
 	seen := map[string]bool{}
 	add := func(depth int, rt string, variants []int, policy string, shared bool) {
@@ -745,13 +805,22 @@ func plans(thorough bool) []plan {
 		seen[c.String()] = true
 		primary = append(primary, plan{c, d})
 	}
-	// secondary configurations, one level shallower. The thorough tier (words are 34x more numerous per level)
-	// drops the combinations marked quickOnly; every dimension value is still exercised at depth d-1 there.
+	// secondary configurations, one level shallower
 	s := d - 1
 	quickOnly := func(f func()) {
-		if !thorough {
+		if d < 5 { // dropped only by the C11_DEPTH=5 exploration, whose words are 34x more numerous per level
 			f()
 		}
+	}
+	if thorough && !override {
+		// thorough: these also get the full depth (added first, so the depth-3 entries below are skipped for them)
+		add(d, "one", same2, "eager", false)
+		add(d, "one", same2, "eager-rev", false)
+		add(d, "one", same3, "lazy", false)
+		add(d, "one", diff2, "lazy", false)
+		add(d, "cache-mem", same2, "lazy", false)
+		add(d, "cache-dir2", same2, "lazy", false)
+		add(d, "one", same2, "lazy", true)
 	}
 	for _, pol := range []string{"lazy", "eager", "eager-rev"} {
 		for _, vs := range [][]int{same2, same3, diff2} {
@@ -849,11 +918,28 @@ func main() {
 	keys, ld := neededLone(ps)
 	ld-- // projections of words in which two instances act are at most depth-1 long
 	e.loneDepth = ld
-	debug.SetGCPercent(1000)
+	debug.SetGCPercent(400)
+	debug.SetMemoryLimit(2 << 30) // soft: the collector works harder as the Go heap approaches it
+	go e.memoryGuard()
 	var loneRuns atomic.Int64
 	t0 := time.Now()
+	abort := func() bool {
+		if run.Expired() {
+			run.Capped("budget")
+			return true
+		}
+		return e.memStop.Load()
+	}
 	for _, k := range keys {
-		e.lone[k] = buildLone(run, k, dirs, ld, &loneRuns)
+		e.lone[k] = buildLone(abort, e.breathe, k, dirs, ld, &loneRuns)
+	}
+	if abort() {
+		// incomplete reference tables must not be used
+		os.RemoveAll(dirs.root)
+		e.outcomes.Inc("lone-reference-runs-only")
+		run.Finish(fw.Coverage{Evaluations: loneRuns.Load(), DistinctNontriv: loneRuns.Load(), States: loneRuns.Load(), Transitions: loneRuns.Load(), TracesValidated: loneRuns.Load(),
+			Rule: "stopped while building the lone references; no merged word was explored", Outcomes: e.outcomes.Map(),
+			Extra: map[string]any{"peak_rss_bytes": e.peakRSS.Load()}}, nil)
 	}
 	loneWall := time.Since(t0).Seconds()
 	bounds := map[string]any{}
@@ -875,7 +961,7 @@ func main() {
 		Evaluations: e.words.Load(), DistinctNontriv: e.interleaved.Load(), States: e.words.Load(), Transitions: e.steps.Load(), TracesValidated: e.steps.Load(),
 		Rule:    "state = one merged word (history) per configuration, enumerated statelessly (instances cannot be forked, every word is executed from fresh instances); transition = one guest call on one instance; non-trivial = words in which at least two instances act",
 		Samples: e.samples.List(), Exhaustive: true, Outcomes: e.outcomes.Map(), Bounds: bounds,
-		Extra: map[string]any{"instance_observations_compared_with_lone": e.instObs.Load(), "phase0_separate_runtime_cases": p0cases, "non_reproducible_mismatches": e.nonRepro.Load(), "lone_references_disturbed": e.loneRepaired.Load(), "words_with_cross_instance_collision_pair": e.collisions, "multi_worlds_built": e.worlds.Load(), "shards": e.shards, "lone_fresh_world_runs": loneRuns.Load()},
+		Extra: map[string]any{"instance_observations_compared_with_lone": e.instObs.Load(), "phase0_separate_runtime_cases": p0cases, "peak_rss_bytes_sampled": e.peakRSS.Load(), "forced_collections": forcedGCs.Load(), "memory_throttles": e.throttles.Load(), "non_reproducible_mismatches": e.nonRepro.Load(), "lone_references_disturbed": e.loneRepaired.Load(), "words_with_cross_instance_collision_pair": e.collisions, "multi_worlds_built": e.worlds.Load(), "shards": e.shards, "lone_fresh_world_runs": loneRuns.Load()},
 	}, []string{
 		"the lone reference is an instance of the same module and slot configuration alone in a fresh runtime with a fresh compilation, one fresh world per reference word",
 		"merged words are enumerated up to renaming of interchangeable instances (same module); instantiation policies lazy/eager/eager-rev cover the instantiation orders that the renaming would drop; slots (temp directory, stdout buffer) are assumed interchangeable",
